@@ -11,7 +11,6 @@ import (
 	verif "github.com/platinummonkey/go-concurrency-limits/zz_verifrt"
 )
 
-
 // verifEffective: the backlog bound and timeout the queue limiter documents for the given arguments
 // (non-positive bound -> 100; negative timeout -> 0 at the pool, zero timeout -> 1 s at the limiter).
 func verifEffective(backlog int, to int64) (uint64, time.Duration) {
